@@ -124,6 +124,8 @@ def r2_codecs(a, tier):
         ec, dc = _replace_chain(ef), _replace_chain(df)
         if ec is None or dc is None:
             raise AnalysisError(f'{mod}.{enc}/{dec}: not a str.replace chain any more (update the codec rule)')
+        if not ec or not dc:
+            raise AnalysisError(f'{mod}.{enc}/{dec}: not a str.replace chain any more (the end-to-end rule C19.R12 decides what the rewritten codec does to packets)')
         markers = [new for _, new in ec]
         escaped_first = bool(ec) and all(any(old == m[0] and new == m[0] * 2 for old, new in ec[:i]) for i, (_, m) in enumerate(ec))
         rep.add({'codec': enc, 'encode_chain': ec, 'decode_chain': dc, 'markers': markers, 'K1_marker_start_escaped_first': escaped_first})
@@ -803,9 +805,15 @@ def r12_envelope_roundtrip(a, tier):
     def errp(msg, extype=None):
         raise Raised(getattr(extype, 'q', str(extype)).split('.')[-1] if extype is not None else 'Exception', ast.Pass())
 
+    def _loads(text):
+        try:
+            return _json.loads(text)
+        except ValueError:  # what the standard library raises for this text, the interpreted program raises
+            raise Raised('ValueError', ast.Pass()) from None
+
     def interp():
         it = ModelInterp(a, {**consts, 'hash2str': Hook(h2s), 'ERROR_print': Hook(errp), 'asjson': Hook(copy.deepcopy), 'fromjson': Hook(lambda v: v),
-                             'json': Hook(None, dumps=Hook(_json.dumps), loads=Hook(_json.loads)),
+                             'json': Hook(None, dumps=Hook(_json.dumps), loads=Hook(_loads)),
                              're': Hook(None, compile=Hook(_re.compile), match=Hook(lambda p_, s_, *f: _re.match(p_, s_, *f)), error=_re.error,
                                         sub=Hook(lambda p_, r_, s_: _re.sub(p_, it.as_callable(r_) if not isinstance(r_, str) else r_, s_)),
                                         Match=_re.Match, Pattern=_re.Pattern), 'len': Hook(len), 'int': Hook(int)})
@@ -823,7 +831,9 @@ def r12_envelope_roundtrip(a, tier):
         return it
     import itertools
     small = [''.join(t) for k in range(0, 4) for t in itertools.product('~a1', repeat=k)]
-    nasty = ['~~', 'worker~~1', '~a4~', '~~a4~~', 'x~04~y', 'aaaa', 'aaaaaaaaaaaa~', '~aaaa', '00000007', '    indented', '1111~1', '~11111~']
+    nasty = ['~~', 'worker~~1', '~a4~', '~~a4~~', 'x~04~y', 'aaaa', 'aaaaaaaaaaaa~', '~aaaa', '00000007', '    indented', '1111~1', '~11111~',
+             # control characters as JSON spells them (the tty layer works on the JSON TEXT): a real ESC, an ANSI sequence, other controls, a line break
+             '\x1b', '\x1b[1;31mred\x1b[0m', 'bell\x07nul\x00del\x7f', 'two\nlines', 'tab\there', 'quote"and\\backslash']
     strings = small if tier == 'thorough' else small[::3] + ['~', '~~', '~a1', 'a~1']
     strings = list(dict.fromkeys(strings + nasty))
     packets = []
